@@ -77,7 +77,7 @@ def check(ctx):
         gf = repo.grouping_funcs.get("wthh_id")
         if gf is None:
             raise AnalysisError("grouping wthh_id vanished")
-        split_flags = _split_flags(gf[1])
+        split_flags, split_problem = _split_flags(gf[1])
         atoms_wg, rows_wg = E[WG]
         wthh_atoms = [x for x in atoms_wg if repo.group_suffix(x) == "wthh"]
         iw, nzw = nz_projection(atoms_wg, rows_wg, wthh_atoms)
@@ -89,6 +89,8 @@ def check(ctx):
             sources[x] = (sp.get("source_col"), sp.get("aggr")) if sp else (None, None)
         src_flags = {v[0] for v in sources.values()}
         problems = []
+        if split_problem:
+            problems.append("the part-household split " + split_problem + ": a needs unit with only one priority flag shares a part-household with ALG II units, and the any-aggregate pays Wohngeld to all of them")
         if not req_any:
             problems.append(f"{WG} can be non-zero with none of its part-household flags {wthh_atoms} set")
         for x, (src, aggr) in sources.items():
@@ -148,18 +150,78 @@ def check(ctx):
 
 
 def _split_flags(fd):
-    """names of the boolean array arguments that make up the (disjunctive) condition of the split"""
+    """names of the boolean array arguments in the condition of the split; the condition must be their
+    disjunction (truth table), whether written as `a[i] or b[i]`, `a | b` inside numpy.where, ..."""
+    from staticlib.ordersem import Subst, truth_table
+
     params = [a.arg for a in fd.args.args]
-    tests = [n.test for n in ast.walk(fd) if isinstance(n, (ast.If, ast.IfExp))]
-    if len(tests) != 1:
-        raise AnalysisError("wthh_id: the split is no longer a single conditional; X2 needs a re-read")
-    t = tests[0]
+    # inline single-assignment locals (e.g. flag = a | b; numpy.where(flag, ...))
+    defs = {}
+    counts = {}
+    for n in ast.walk(fd):
+        if isinstance(n, ast.Assign) and len(n.targets) == 1 and isinstance(n.targets[0], ast.Name):
+            counts[n.targets[0].id] = counts.get(n.targets[0].id, 0) + 1
+            defs[n.targets[0].id] = n.value
+    defs = {k: v for k, v in defs.items() if counts[k] == 1 and k not in params}
+
+    class Inline(ast.NodeTransformer):
+        def visit_Name(self, n):
+            if n.id in defs and isinstance(n.ctx, ast.Load):
+                return self.visit(ast.parse(ast.unparse(defs[n.id]), mode="eval").body)
+            return n
+
+    conds = [n.test for n in ast.walk(fd) if isinstance(n, (ast.If, ast.IfExp))]
+    conds += [n.args[0] for n in ast.walk(fd) if isinstance(n, ast.Call) and ast.unparse(n.func) in ("numpy.where", "np.where") and n.args]
+    conds = [Inline().visit(ast.parse(ast.unparse(c), mode="eval").body) for c in conds]
+    conds = [c for c in conds if any(isinstance(x, ast.Name) and x.id in params and x.id != "hh_id" for x in ast.walk(c))]
+    if len(conds) != 1:
+        raise AnalysisError("wthh_id: the split is no longer decided by a single condition; X2 needs a re-read")
+    t = conds[0]
     names = sorted({n.id for n in ast.walk(t) if isinstance(n, ast.Name) and n.id in params})
-    # the condition must be a pure disjunction of the flags (element-wise)
-    if isinstance(t, ast.BoolOp) and isinstance(t.op, ast.Or) or (not isinstance(t, ast.BoolOp) and len(names) == 1):
-        if not any(isinstance(n, ast.UnaryOp) and isinstance(n.op, ast.Not) for n in ast.walk(t)):
-            return names
-    raise AnalysisError(f"wthh_id: condition `{ast.unparse(t)}` is not a disjunction of flag columns; X2 needs a re-read")
+
+    names = [x for x in names if x != "hh_id"]
+
+    def m(node):
+        if isinstance(node, ast.Subscript) and isinstance(node.value, ast.Name) and node.value.id in names:
+            return node.value.id
+        return None
+
+    class B(ast.NodeTransformer):
+        """bitwise operators on boolean arrays -> boolean operators"""
+
+        def visit_BinOp(self, n):
+            self.generic_visit(n)
+            if isinstance(n.op, (ast.BitOr, ast.BitAnd)):
+                return ast.BoolOp(op=ast.Or() if isinstance(n.op, ast.BitOr) else ast.And(), values=[n.left, n.right])
+            return n
+
+        def visit_UnaryOp(self, n):
+            self.generic_visit(n)
+            if isinstance(n.op, ast.Invert):
+                return ast.UnaryOp(op=ast.Not(), operand=n.operand)
+            return n
+
+        def visit_Call(self, n):
+            self.generic_visit(n)
+            f = ast.unparse(n.func)
+            if f in ("numpy.logical_or", "np.logical_or") and len(n.args) == 2:
+                return ast.BoolOp(op=ast.Or(), values=list(n.args))
+            if f in ("numpy.logical_and", "np.logical_and") and len(n.args) == 2:
+                return ast.BoolOp(op=ast.And(), values=list(n.args))
+            if f in ("numpy.logical_not", "np.logical_not") and len(n.args) == 1:
+                return ast.UnaryOp(op=ast.Not(), operand=n.args[0])
+            return n
+
+    expr = B().visit(Subst(m).visit(ast.parse(ast.unparse(t), mode="eval").body))
+    ast.fix_missing_locations(expr)
+    try:
+        tt = truth_table(expr, names)
+    except ValueError as e:
+        raise AnalysisError(f"wthh_id: condition `{ast.unparse(t)}` is not a boolean combination of flag columns ({e}); X2 needs a re-read") from e
+    bad = [k for k, v in tt.items() if v != any(k)]
+    if bad:
+        return names, f"`{ast.unparse(t)}` is not the disjunction of {names}: for {dict(zip(names, bad[0]))} it gives {tt[bad[0]]}"
+    return names, None
 
 
 def _covering_form(rule):
